@@ -5,7 +5,7 @@ from __future__ import annotations
 import ast
 
 from .. import AnalysisError
-from ..astutil import Deps, is_name, norm_cond, unwrap
+from ..astutil import Deps, is_name, norm_cond, plain_body, unwrap
 from ..cfg import CFG
 from ..engine import Analysis
 from ..kinds import NOVALUE, both, call_nodes, calls_to, catches_cancellation, normal_only, scenario, with_locals
@@ -152,7 +152,7 @@ def check(an: Analysis) -> None:
         for st in [s for s in stores if s.id in reach_exc and s.id not in reach]:
             ob.fail(srec, st.ast, "a store that is reached only after something failed (e.g. a raising merge function): the value recorded so far must stay what the fold of the successful merges produced, a failing record leaves it untouched")
         for st in live:
-            v = unwrap(st.ast.value)  # type: ignore[union-attr]
+            v = unwrap(sc.reduced_at(st, st.ast.value))  # type: ignore[union-attr]
             alts = [v]
             if isinstance(v, ast.Name) and v.id != mp and ds.single_value(v.id) is None:
                 alts = [unwrap(x) for x in sc.values_of(v.id)] or [v]
@@ -277,9 +277,10 @@ def check(an: Analysis) -> None:
                 ob.fail(mf, lp, "nested scopes are filtered while folding")
         elif dotted(it) == "self._nested":
             # explicit nesting: for nested in self._nested: for metric in nested.metrics(merge=merge): ...
-            inner = [x for x in lp.body if isinstance(x, ast.For)]
+            lbody = plain_body(lp.body)
+            inner = [x for x in lbody if isinstance(x, ast.For)]
             var = lp.target.id if isinstance(lp.target, ast.Name) else None
-            good = len(lp.body) == 1 and len(inner) == 1
+            good = len(lbody) == 1 and len(inner) == 1
             if good:
                 el = unwrap(inner[0].iter)
                 good = isinstance(el, ast.Call) and isinstance(el.func, ast.Attribute) and el.func.attr == "metrics" and is_name(el.func.value, var or "") and any(k.arg == "merge" and is_name(k.value, "merge") for k in el.keywords)
